@@ -21,7 +21,9 @@ namespace Selection
 
 /-- What the selection operators read of an individual. -/
 structure Ind where
-  /-- `ind.fitness.wvalues` -/
+  /-- `getattr(ind, fit_attr).wvalues` — the fitness attribute the operator is told to use
+  (`fit_attr`, default `"fitness"`; the lexicase family and the crowding tournament always read
+  `ind.fitness`) -/
   wv : List Rat
   /-- `len(ind)` (double tournament) -/
   size : Nat := 0
